@@ -9,8 +9,8 @@ package main
 //   m<move>   the record grows by this move (as bot.handleMove appends it); an illegal one ends the op with `illegal`
 //   u         the record shrinks by one ply (an `Undo` line); ends the op with `ubad` on a one-position record
 //   c[;j=<i>][;a=<move>][;k=<v1>:<d1>:<v2>]
-//             GetMove is called on the newest position (j: on position number i of the record instead, the case of a
-//             thinker that was started earlier); a: the stub searcher's answer (default tak.Move{}); k: the answers of
+//             GetMove is called on the newest position (j: on the i-th position that ever entered the record instead - it may
+//             have been undone since -, the case of a thinker that was started earlier); a: the stub searcher's answer (default tak.Move{}); k: the answers of
 //             Friendly's depth-3 check engine (value and depth for the position to move on, value for the position before).
 //             A finished position is not handed to GetMove (the bot loop does not either): `over`.
 // One output word per call: <commands>/<searcher consulted n times>/<clock and engine requests in order>/<returned move>
@@ -160,10 +160,10 @@ func glueRun(a []string, probe bool) string {
 			ps := v.G.Positions
 			p := ps[len(ps)-1]
 			if c.j >= 0 {
-				if c.j >= len(ps) {
+				if c.j >= len(v.All) {
 					return strings.Join(append(out, "bad-op"), " ")
 				}
-				p = ps[c.j]
+				p = v.All[c.j]
 			}
 			if over, _ := p.GameOver(); over {
 				out = append(out, "over")
